@@ -3,6 +3,7 @@ package props
 import (
 	"fmt"
 	"go/ast"
+	"go/types"
 	"sort"
 	"strings"
 
@@ -93,10 +94,17 @@ func C06(p *core.Program, r *core.Report) {
 					continue
 				}
 				nSites++
-				ok, w := core.MustPassThrough(m, add, func(in ssa.Instruction) bool {
-					st, isSt := in.(*ssa.Store)
-					return isSt && strings.HasSuffix(c.Of(st.Addr), ".PageURL") && strings.Contains(c.Of(st.Addr), "TextBuilder.Build(") && c.Of(st.Val) == "$0.‹*url.URL›"
-				}, nil)
+				// the appended object (or the object it was copied from, before the copy) has its
+				// PageURL field stored with the builder's *url.URL on every path to the append
+				ok, w := false, []string(nil)
+				for _, a := range add.Common().Args[1:] {
+					if el := appendedElem2(a); el != nil {
+						a = el
+					}
+					if nt := core.NamedOf(core.StripConv(a).Type()); nt != nil && nt.Obj().Name() == "Text" {
+						ok, w = fieldSetBefore(m, core.StripConv(a), add, "PageURL", func(v ssa.Value) bool { return c.Of(v) == "$0.‹*url.URL›" }, 0)
+					}
+				}
 				r.Add("U1", "every Text gets the builder's page URL before it enters the document: "+fn.Name(), p.Pos(add.Pos()), ok, "a store text.PageURL = <builder's page URL> must precede the append on every path", w...)
 			}
 		}
@@ -438,4 +446,63 @@ func checkSrcsetAgreement(p *core.Program, r *core.Report, rule string) {
 		}
 		r.Add(rule, core.ShortKey(fn)+" tokenises srcset with the reviewed srcset pattern only", p.Pos(fn.Pos()), usesRx && len(other) == 0, fmt.Sprintf("other tokenisers: %v", other))
 	}
+}
+
+// fieldSetBefore reports whether, on every path to `at`, the struct that obj points to had its
+// field stored with an accepted value: either a store obj.field = v precedes `at` on every path,
+// or obj was filled by a whole-struct copy *obj = *src that precedes `at` on every path and the
+// same holds for src at the point of the copy.
+func fieldSetBefore(fn *ssa.Function, obj ssa.Value, at ssa.Instruction, field string, accept func(ssa.Value) bool, depth int) (bool, []string) {
+	if depth > 4 {
+		return false, []string{"copy chain too long"}
+	}
+	isField := func(addr ssa.Value) bool {
+		fa, ok := addr.(*ssa.FieldAddr)
+		if !ok || fa.X != obj {
+			return false
+		}
+		st, ok := fa.X.Type().Underlying().(*types.Pointer).Elem().Underlying().(*types.Struct)
+		return ok && st.Field(fa.Field).Name() == field
+	}
+	ok, w := core.MustPassThrough(fn, at, func(in ssa.Instruction) bool {
+		st, isSt := in.(*ssa.Store)
+		return isSt && isField(st.Addr) && accept(st.Val)
+	}, nil)
+	if ok {
+		return true, nil
+	}
+	// whole-struct copies into obj
+	var copies []*ssa.Store
+	if refs := obj.Referrers(); refs != nil {
+		for _, ref := range *refs {
+			if st, isSt := ref.(*ssa.Store); isSt && st.Addr == obj {
+				copies = append(copies, st)
+			}
+		}
+	}
+	if len(copies) != 1 {
+		return false, w
+	}
+	cp := copies[0]
+	if ok2, w2 := core.MustPassThrough(fn, at, func(in ssa.Instruction) bool { return in == ssa.Instruction(cp) }, nil); !ok2 {
+		return false, w2
+	}
+	// no store to the field of obj other than accepted ones may follow the copy (a later
+	// overwrite with something else is not looked for: stores to the field are all inspected)
+	if refs := obj.Referrers(); refs != nil {
+		for _, ref := range *refs {
+			if fa, isFA := ref.(*ssa.FieldAddr); isFA && isField(fa) && fa.Referrers() != nil {
+				for _, r2 := range *fa.Referrers() {
+					if st, isSt := r2.(*ssa.Store); isSt && st.Addr == ssa.Value(fa) && !accept(st.Val) {
+						return false, []string{"the field is also stored with another value"}
+					}
+				}
+			}
+		}
+	}
+	load, isLoad := cp.Val.(*ssa.UnOp)
+	if !isLoad {
+		return false, append(w, "the object is filled from a value that is not a copy of another object")
+	}
+	return fieldSetBefore(fn, load.X, load, field, accept, depth+1)
 }
